@@ -4,6 +4,7 @@
 //! usage: harness run <ID> <quick|thorough> <seed> <report.json> [workdir]
 //!        harness replay <ID> <input> <report.json> [workdir]
 mod common;
+mod errkind;
 mod crc;
 mod diagpos;
 mod codec;
